@@ -310,7 +310,11 @@ class KeyqueueTrie:
                 raise MoreInputRequired()
             return None
 
-        (b, x, y) = (int(val) for val in value[:-1].split(";"))
+        fields = value[:-1].split(";")
+        if len(fields) != 3 or not all(val.isascii() and val.isdigit() for val in fields):
+            # not a well-formed SGR mouse report: let the bytes pass through as ordinary input
+            return None
+        (b, x, y) = (int(val) for val in fields)
         action = value[-1]
         # Double and triple clicks are not supported.
         # They can be implemented by using a timer.
